@@ -297,3 +297,98 @@ package core
 //@   call Put#1 bind erp = $ret0
 //@   loop 2 step [rewritten-iff-modified] listModified ==> erp_set && erp == nil
 //@   loop 3 step [kept-or-dropped] (!entryDeleted ==> len(newBundleEntry.BundleEntries) == prev(len(newBundleEntry.BundleEntries)) + 1) && (entryDeleted ==> len(newBundleEntry.BundleEntries) == prev(len(newBundleEntry.BundleEntries)) && listModified)
+
+// ---- diamond commit: merge step (C11). The step is verified for an arbitrary received (file, split)
+// -- channel receives are havoc -- so what is proved holds for every arrival order. -------------------
+//@ func (*Diamond).mergeSplits$1
+//@   call d.deconflicter#1 pure
+//@   call d.deconflicter#2 pure
+//@   call d.deconflicter#3 pure
+//@   call After#1 assert [compares-upload-times] $0 == file.Timestamp && $1 == existing.Timestamp
+//@   call After#1 bind newer = $ret0
+//@   call Get#1 assert [by-path] len($1) == len(file.NameWithPath)
+// first version of a path: recorded for the split that uploaded it
+//@   call Insert#1 assert [first-version] as($2, mergeEntry).ID == splitID && as($2, mergeEntry).BundleEntry == file
+// the main tree entry is replaced only by a strictly newer version, whatever the mode
+//@   call Insert#2 assert [newer-wins] newer_set && newer && as($2, mergeEntry).ID == splitID && as($2, mergeEntry).BundleEntry == file
+//@   call Insert#2 assert [no-extra-path-in-ignore-mode] mode == model.IgnoreConflicts || splitID == existing.ID
+//@   call Insert#4 assert [newer-wins] newer_set && newer && as($2, mergeEntry).ID == splitID && as($2, mergeEntry).BundleEntry == file
+// the losing version keeps its content and is filed for the split that uploaded it (known finding K7)
+//@   call Insert#3 assert [loser-kept] as($2, mergeEntry).BundleEntry.Hash == existing.Hash && as($2, mergeEntry).ID == existing.ID
+//@   call d.deconflicter#1 assert [loser-split] $0 == existing.ID
+//@   call Insert#5 assert [older-loser-kept] !newer && as($2, mergeEntry).BundleEntry.Hash == file.Hash && as($2, mergeEntry).ID == splitID
+//@   call d.deconflicter#2 assert [older-loser-split] $0 == splitID && $1 == existing.NameWithPath
+//@   call d.deconflicter#3 assert [older-loser-key] $0 == splitID && $1 == file.NameWithPath
+//@   send errorC#1 assert [forbid-newer] mode == model.ForbidConflicts && file.Hash != existing.Hash && splitID != existing.ID
+//@   send errorC#2 assert [forbid-older] mode == model.ForbidConflicts && file.Hash != existing.Hash && splitID != existing.ID
+
+// every packed entry is stamped with its own upload time, taken when that entry is received
+//@ func (*fileIndex).pack
+//@   call Now#1 bind stamp = $ret0
+//@   loop 1 step [stamped-per-entry] numFilePackedRes != prev(numFilePackedRes) ==> stamp_set
+//@   call filePacked2BundleEntry#1 assert [of-received] $packedFile == file
+
+// ---- diamonds and splits: sequential guards (C12). The at-most-once statement under interleavings
+// of concurrent commits is NOT decided here (two executions; see DESIGN.md). ------------------------
+//@ func (*metaObject).writeMetadata
+//@   call PutCRC#1 assert [pass-through] $key == pth && $noOverwrite == noOverwrite
+//@   call Put#1 assert [pass-through] $key == pth && $noOverwrite == noOverwrite
+
+//@ func diamondReady
+//@   call GetDiamond#1 assert [of-diamond] $repo == repo && $diamondID == diamondID
+//@   call GetDiamond#1 bind dd = $ret0
+//@   call GetDiamond#1 bind de = $ret1
+//@   ensures [only-initialized] ret0 == nil ==> dd_set && de == nil && dd.State == model.DiamondInitialized
+
+//@ func (*Diamond).uploadDescriptor
+//@   call GetArchivePathToDiamond#1 assert [path-of-state] $repo == d.RepoID && $diamondID == d.DiamondDescriptor.DiamondID && $state == d.DiamondDescriptor.State
+//@   call GetArchivePathToDiamond#1 bind dest = $ret0
+//@   call writeMetadata#1 assert [create-if-absent] dest_set && $pth == dest && $noOverwrite == storage.NoOverWrite
+
+//@ func (*Split).uploadDescriptor
+//@   call GetArchivePathToSplit#1 assert [path-of-state] $repo == s.RepoID && $diamondID == s.DiamondID && $splitID == s.SplitDescriptor.SplitID && $state == s.SplitDescriptor.State
+//@   call GetArchivePathToSplit#1 bind dest = $ret0
+//@   call writeMetadata#1 assert [create-if-absent] dest_set && $pth == dest && $noOverwrite == storage.NoOverWrite
+
+//@ func (*Diamond).WithState
+//@   requires d != nil
+//@   ensures [state-set] result == d && d.DiamondDescriptor.State == state
+
+//@ func (*Split).WithState
+//@   requires s != nil
+//@   ensures [state-set] result == s && s.SplitDescriptor.State == state
+
+//@ func (*Diamond).Cancel
+//@   call downloadDescriptor#1 bind de = $ret0
+//@   call WithState#1 assert [not-terminated] $state == model.DiamondCanceled && d.DiamondDescriptor.State != model.DiamondCanceled && d.DiamondDescriptor.State != model.DiamondDone
+//@   call uploadDescriptor#1 assert [writes-canceled] $d.DiamondDescriptor.State == model.DiamondCanceled
+//@   ensures [propagate] de_set && de != nil ==> err != nil
+
+// commit: readiness is checked before any metadata write; the bundle descriptor is written after
+// the file lists; diamond-done only after a successful commit
+//@ func (*Diamond).implCommit
+//@   call diamondReady#1 assert [of-this-diamond] $repo == d.RepoID && $diamondID == d.DiamondDescriptor.DiamondID
+//@   call diamondReady#1 bind ready = $ret0
+//@   call Upload#1 bind ue = $ret1
+//@   call uploadBundleDescriptor#1 assert [after-ready-and-lists] ready_set && ready == nil && ue_set && ue == nil
+//@   call uploadBundleDescriptor#1 bind be = $ret0
+//@   ensures [refused-unless-ready] ready_set && ready != nil ==> err != nil && !be_set
+
+//@ func (*Diamond).implCommit$2
+//@   call uploadDescriptor#1 assert [done-state] $d.DiamondDescriptor.State == model.DiamondDone
+//@   call uploadDescriptor#1 assert [only-on-success] old(err) == nil
+
+// a split is created/restarted only on a diamond that is still open; a completed split is refused
+//@ func CreateSplit
+//@   call diamondReady#1 assert [of-diamond] $repo == repo && $diamondID == diamondID
+//@   call diamondReady#1 bind ready = $ret0
+//@   call downloadDescriptor#1 assert [after-ready] ready_set && ready == nil
+//@   call uploadDescriptor#1 assert [after-ready] ready_set && ready == nil
+//@   ensures [refused-unless-ready] ready_set && ready != nil ==> ret1 != nil
+//@   ensures [ready-checked] ret1 == nil ==> ready_set && ready == nil
+
+//@ func (*Split).implUpload
+//@   call uploadDescriptor#1 assert [done-state] $s.SplitDescriptor.State == model.SplitDone
+//@   call Upload#1 bind ue = $ret1
+//@   call uploadDescriptor#1 assert [after-lists] ue_set && ue == nil
+//@   ensures [done-refused] old(s.SplitDescriptor.State) == model.SplitDone ==> ret0 != nil
